@@ -38,3 +38,152 @@ void harness_safe(void)
     VWITNESS();
     free(out);
 }
+
+/* ------------------------------------------------------------------------------------------------
+ * C17: a structured, well-formed MUS score of two events + END is translated to the MIDI events the
+ * format defines.  Event TYPES, the channel class of the first event (0..14 symbolic or 15 = percussion)
+ * and whether the second event uses the same channel are concrete per obligation (they fix every
+ * offset); channel numbers, keys, volumes, controller numbers/values and the delay are symbolic.
+ * Event types: 0 release, 1 play, 5 play with volume byte, 2 pitch wheel, 6 program change (controller 0),
+ * 4 controller change (number CTL concrete, value symbolic), 3 system event (controller SYS concrete). */
+#ifndef T1
+#define T1 5
+#endif
+#ifndef T2
+#define T2 1
+#endif
+#ifndef C1_IS_15
+#define C1_IS_15 0
+#endif
+#ifndef SAME
+#define SAME 1
+#endif
+#ifndef SYS
+#define SYS 11
+#endif
+#ifndef KEY1
+#define KEY1 72
+#endif
+#ifndef KEY5
+#define KEY5 60
+#endif
+#ifndef CTL
+#define CTL 3
+#endif
+#ifndef DELAYHI
+#define DELAYHI 0
+#endif
+#ifndef DELAY
+#define DELAY 100
+#endif
+
+static const uint8_t ctl_map[10] = { 0, 0, 0x01, 0x07, 0x0A, 0x0B, 0x5B, 0x5D, 0x40, 0x43 };   /* MUS controller -> MIDI controller */
+
+static const uint8_t sys_map[5] = { 0x78, 0x7B, 0x7E, 0x7F, 0x79 };                            /* MUS system event 10..14 -> MIDI channel-mode controller */
+
+struct ev { uint8_t ch, a, b; };
+
+static unsigned put_event(uint8_t *p, int type, const struct ev *e, int last)
+{
+    unsigned n = 0;
+    int t = (type == 5) ? 1 : (type == 6) ? 4 : type;
+    p[n++] = (uint8_t)((last ? 0x80 : 0) | (t << 4) | e->ch);
+    switch(type)
+    {
+    case 0: p[n++] = e->a & 127; break;
+    case 1: p[n++] = KEY1; break;                 /* key concrete: the converter branches on bit 7 of this byte */
+    case 5: p[n++] = 128 | KEY5; p[n++] = e->b & 127; break;      /* key concrete: the converter branches on bit 7 of this byte */
+    case 2: p[n++] = e->a; break;
+    case 3: p[n++] = SYS; break;                  /* system event: ONE data byte (controller 10..14) */
+    case 6: p[n++] = 0; p[n++] = e->a & 127; break;
+    default: p[n++] = CTL; p[n++] = e->b & 127; break;             /* controller number concrete (the converter branches on it) */
+    }
+    return n;
+}
+
+/* expected MIDI bytes for one event on MIDI channel mch; *vol is the remembered volume of that channel */
+static unsigned expect_event(uint8_t *q, int type, const struct ev *e, unsigned mch, uint8_t *vol)
+{
+    unsigned n = 0;
+    switch(type)
+    {
+    case 0: q[n++] = 0x80 | mch; q[n++] = e->a & 127; q[n++] = 0x40; break;
+    case 1: q[n++] = 0x90 | mch; q[n++] = KEY1; q[n++] = *vol; break;
+    case 5: *vol = e->b & 127; q[n++] = 0x90 | mch; q[n++] = KEY5; q[n++] = *vol; break;
+    case 2: q[n++] = 0xE0 | mch; q[n++] = 0; q[n++] = (e->a >> 1) & 127; break;   /* MSB = upper 7 bits (LSB not required by the property) */
+    case 6: q[n++] = 0xC0 | mch; q[n++] = e->a & 127; break;
+    case 3: q[n++] = 0xB0 | mch; q[n++] = sys_map[SYS - 10]; q[n++] = (SYS == 12) ? 2 + 1 : 0; break;   /* valueless channel-mode message (mono: channel count + 1) */
+    default: q[n++] = 0xB0 | mch; q[n++] = ctl_map[CTL]; q[n++] = e->b & 127; break;
+    }
+    return n;
+}
+
+static void conv_case(unsigned c1, unsigned c2)
+{
+    uint8_t img[14 + 3 + 2 + 3 + 1] = { 0 };      /* (no memset: CBMC's array_replace model loses the concrete bytes) */
+    uint8_t want[64];
+    struct ev e1, e2;
+    uint8_t *out = 0;
+    uint32_t outsize = 0;
+    unsigned p = 14, w = 0, i, mch1, mch2;
+    uint8_t delay = DELAY;                        /* concrete: the converter scales delays in floating point, a symbolic delay makes the length of the delta symbolic */
+    uint8_t vol1 = 0x40, vol2 = 0x40;
+    int rc;
+    e1.ch = (uint8_t)c1; e1.a = nondet_uchar(); e1.b = nondet_uchar();
+    e2.ch = (uint8_t)c2; e2.a = nondet_uchar(); e2.b = nondet_uchar();
+    img[0] = 'M'; img[1] = 'U'; img[2] = 'S'; img[3] = 0x1A;
+    p += put_event(img + p, T1, &e1, 1);          /* first event carries a delay */
+    if(DELAYHI) img[p++] = 128 | DELAYHI;         /* multi-byte delay: 7 bits per byte, most significant first */
+    img[p++] = delay;
+    p += put_event(img + p, T2, &e2, 0);
+    img[p++] = 0x60;                              /* END */
+    img[4] = (uint8_t)(p - 14); img[5] = 0;       /* score length */
+    img[6] = 14; img[7] = 0;                      /* score start */
+    img[8] = 2; img[9] = 0;                       /* primary channels */
+    rc = Convert_mus2midi(img, p, &out, &outsize, 0);
+    VASSERT(rc == 0 && out != 0, "a well-formed score converts");
+    if(rc != 0 || !out) return;
+    /* expected track after header, MTrk, tempo and percussion volume: the events.  Reference channel numbering:
+       MUS 15 -> MIDI 9; every other channel gets the next free MIDI channel (skipping 9) at its first use, where the
+       converter also emits a channel-volume initialisation (B<ch> 07 64, ignored by the property but part of the layout) */
+    {
+        int map[16], next = 0, k;
+        for(k = 0; k < 16; k++) map[k] = -1;
+        map[15] = 9;
+#define DELTA_AND_FIRST_USE(delta, ch) do { if((delta) > 127) want[w++] = 128 | ((delta) >> 7); want[w++] = (delta) & 127; if(map[ch] < 0) { want[w++] = 0xB0 | next; want[w++] = 0x07; want[w++] = 100; want[w++] = 0; map[ch] = next++; if(next == 9) next++; } } while(0)
+        DELTA_AND_FIRST_USE(0, c1);
+        mch1 = (unsigned)map[c1];
+        w += expect_event(want + w, T1, &e1, mch1, &vol1);
+        DELTA_AND_FIRST_USE(DELAYHI * 128u + delay, c2);   /* MUS ticks are MIDI ticks: the delta is the delay as a variable-length quantity */
+        mch2 = (unsigned)map[c2];
+        VASSERT(c1 == 15 || mch1 == 0, "reference: first melodic channel is MIDI channel 0");
+        VASSERT(c1 == c2 || c1 == 15 || mch2 == 1, "reference: second melodic channel is MIDI channel 1");
+        w += expect_event(want + w, T2, &e2, mch2, c1 == c2 ? &vol1 : &vol2);
+        DELTA_AND_FIRST_USE(0, 0);                    /* the END event byte 0x60 names MUS channel 0 */
+        want[w++] = 0xFF; want[w++] = 0x2F; want[w++] = 0;   /* END -> End of Track */
+    }
+    VASSERT(out[0] == 'M' && out[1] == 'T' && out[2] == 'h' && out[3] == 'd' && out[9] == 0 && out[11] == 1, "format-0 header with one track");
+    {
+        /* tick rate: division / (tempo read big-endian, as the sequencer reads it) within 2.5 % of 140 Hz */
+        unsigned long division = ((unsigned long)out[12] << 8) | out[13];
+        unsigned long tempo = ((unsigned long)out[26] << 16) | ((unsigned long)out[27] << 8) | out[28];
+        VASSERT(out[23] == 0xFF && out[24] == 0x51 && out[25] == 0x03, "tempo event first");
+        /* ticks per second = division * 1e6 / tempo ; |x - 140| <= 3.5 */
+        VASSERT(division * 1000000ul * 2 >= 273ul * tempo && division * 1000000ul * 2 <= 287ul * tempo, "tick rate within 2.5 % of 140 Hz");
+    }
+    for(i = 0; i < w; i++)
+        VASSERT(out[33 + i] == want[i], "event bytes equal the translation the MUS format defines");
+    VASSERT(outsize == 33 + w, "nothing follows End of Track");
+    VWITNESS();
+    free(out);
+}
+
+/* channel numbers are enumerated on concrete copies (a symbolic channel makes the converter's "first use of
+ * this channel" test, and with it every output offset, symbolic) */
+void harness_conv(void)
+{
+    unsigned sel = C1_IS_15 ? 15 : (nondet_uchar() % 15), c;
+    for(c = 0; c < 16; c++)
+        if(c == sel)
+            conv_case(c, SAME ? c : (c + 7) % 15 == c ? (c + 8) % 15 : (c + 7) % 15);
+}
